@@ -161,7 +161,7 @@ DialerVerdict(c) ==
 PbDecoders == {"kademlia", "bitswap", "identify", "noise_payload", "public_key", "peer_id", "multiaddr",
                "mss_message", "bitswap_prefix", "cid"}
 PbOps == {"valid", "truncate", "len-extreme", "len-nonminimal", "wire-type", "dup-field", "drop-field",
-          "splice", "flip", "noise", "amplify"}
+          "splice", "flip", "noise", "amplify", "leaf", "nested"}
 PbPlan == [dec : PbDecoders, op : PbOps]
 \* trivial oracle: a value or an error
 PbOutcomes == {"ok", "err"}
